@@ -481,7 +481,7 @@ def run(chk, tier):
         (r'ColumnType::width$', 'Overflow:Add', r'Add u16', 'display width of an embedded locale string (a few characters) + 2'),
         (r'table::format_details$', 'Overflow:Add', r'Add usize', 'address index + 1: the index is at most the number of addresses of one hop (next_hop_address guard)'),
         (r'render::chart::render::\{closure#\d+\}$', 'Overflow:Add', r'Add usize', 'enumerate() index of an in-memory list + 1'),
-        (r'TuiApp::(next|previous)_flow$', 'unwrap', r'unwrap', 'the selected flow is in flow_counts: flow mode is entered with FlowId(1) under flow_count() > 0 (R2 toggle_flows), ids are taken from flow_counts (R2 writers), '
+        (r'within:TuiApp::(next|previous)_flow$', 'unwrap', r'unwrap', 'the selected flow is in flow_counts (looked up in the function or in a helper only these two call): flow mode is entered with FlowId(1) under flow_count() > 0 (R2 toggle_flows), ids are taken from flow_counts (R2 writers), '
                                                                'clamp_selected_flow re-validates against the same snapshot flow_counts is built from (R3), and flow_counts lists every registered flow (≤ max_flows: C15.R4)'),
         (r'Columns::move_down$', 'api', 'remove', 'Vec::remove(index) under its own guard index < len'),
         (r'Columns::move_down$', 'api', 'insert', 'Vec::insert(index + 1) after the remove needs index + 1 < len: the only caller passes a selection with selected + 1 < count (R2 select@move_column_down); the function\'s own guard index < len is weaker (latent)'),
